@@ -34,6 +34,26 @@ def _policy(n, seed):
     return ConstructivePolicy(Enc(), Dec(), env_name="tsp")
 
 
+def _entropy(seed, n, seq, forced_first, tag=0.0, temperature=1.0):
+    """sum over the non-forced steps of the entropy of the masked-normalised step distribution along seq"""
+    avail, first, cur, H = [True] * n, None, None, 0.0
+    for t, a in enumerate(seq):
+        if t == 0 and forced_first:
+            first = cur = a
+            avail = [j != a for j in range(n)]
+            continue
+        lg = _table_logits(seed, n, first if first is not None else 0, cur if cur is not None else 0, avail, tag) / temperature
+        lp = torch.log_softmax(lg.masked_fill(~torch.tensor(avail), -math.inf), -1)
+        H += float(-(lp.exp() * lp.masked_fill(~torch.tensor(avail), 0.0)).sum())
+        if t == 0:
+            first = a
+            avail = [j != a for j in range(n)]
+        else:
+            avail[a] = False
+        cur = a
+    return H
+
+
 def _rederive(seed, n, seq, forced_first, tag=0.0, temperature=1.0):
     avail, first, cur = [True] * n, None, None
     steps = []
@@ -73,8 +93,12 @@ def run_ll(p):
             kw = {"num_starts": p.get("num_starts") or n} if multi else {}
             if temp != 1.0:
                 kw["temperature"] = temp
-            out = pol(td.clone(), env, phase="test", decode_type=dt, **kw)
+            out = pol(td.clone(), env, phase="test", decode_type=dt, return_entropy=True, **kw)
             acts, ll = out["actions"], out["log_likelihood"]
+            for r in range(acts.shape[0]):
+                Href = _entropy(seed, n, acts[r].tolist(), multi, tag=td["locs"][r % B, 0, 0], temperature=temp)
+                if abs(float(out["entropy"][r]) - Href) > 1e-4:
+                    bad.append(f"seed {seed} row {r}: returned entropy {float(out['entropy'][r]):.5f} != entropy of the step distributions along the returned sequence {Href:.5f}" + (" (forced first move must contribute 0)" if multi else ""))
 
             def keep(r, st):
                 return [x if (not flagged or bool(flags[r % B, t])) else 0.0 for t, x in enumerate(st)]
@@ -88,6 +112,12 @@ def run_ll(p):
                     bad.append(f"seed {seed} row {r}: returned log-likelihood {float(ll[r]):.5f} != sum of step log-probs of the returned actions {sum(st):.5f}")
             if not multi:
                 out2 = pol(td.clone(), env, phase="train", actions=acts, return_entropy=True, return_sum_log_likelihood=False, **({"temperature": temp} if temp != 1.0 else {}))
+                try:
+                    out3 = pol(td.clone(), env, phase="train", actions=acts, decode_type=dt, return_entropy=True, return_sum_log_likelihood=False, **({"temperature": temp} if temp != 1.0 else {}))
+                    if out3["log_likelihood"].shape != out2["log_likelihood"].shape or not torch.allclose(out3["log_likelihood"], out2["log_likelihood"], atol=1e-5):
+                        bad.append(f"seed {seed}: actions= together with decode_type='{dt}' does not evaluate the given actions (per-step log-probs {out3['log_likelihood'][0].tolist()} vs {out2['log_likelihood'][0].tolist()})")
+                except Exception as e:  # noqa: BLE001
+                    bad.append(f"seed {seed}: actions= together with decode_type='{dt}' raised {type(e).__name__}: {str(e)[:100]}")
                 for r in range(acts.shape[0]):
                     st = keep(r, _rederive(seed, n, acts[r].tolist(), False, tag=td["locs"][r % B, 0, 0], temperature=temp))
                     if any(abs(a - float(b)) > 1e-4 for a, b in zip(st, out2["log_likelihood"][r])):
